@@ -257,3 +257,18 @@ Proof.
   intros Hp Hl. rewrite !gen_sign_verify. unfold verify_decoded. destruct vs as [|v0 vr]; [reflexivity|].
   destruct sigs as [[|s r]|]; try reflexivity. apply verify_all_body_irrelevant; assumption.
 Qed.
+
+(* non-vacuity of gen_sign_verify_gates: a decoded one-signature message that the source's Verify accepts *)
+Definition ws_wire : wire := {| w_prot := Some []; w_unprot := Some []; w_payload := Some [x61]; w_auth := None; w_extra := None |}.
+Definition ws_sig1 : sigent :=
+  {| se_prot := [(ilabel 1, VInt KInt (-7))]; se_raw := [xa1; x01; x26]; se_unprot := Some [(ilabel 4, VBytes [x01; x02])]; se_sig := Some [x85; x69; x53; x69] |}.
+Example sign_verify_gates_example :
+  cose_SignMessage_Verify [ws_p1; ws_p2] None ws_wire (Some [ws_sig1]) = Ok tt.
+Proof. vm_compute. reflexivity. Qed.
+(* ... and one it refuses at the gate: the signature's own protected bucket names ES384, the verifier's key is an ES256 key,
+   although the verifier would accept the bytes and although nothing else differs *)
+Definition ws_sig1_es384 : sigent :=
+  {| se_prot := [(ilabel 1, VInt KInt (-35))]; se_raw := [xa1; x01; x38; x22]; se_unprot := Some [(ilabel 4, VBytes [x01; x02])]; se_sig := Some [x85; x69; x53; x69] |}.
+Example sign_verify_gate_refuses_example :
+  cose_SignMessage_Verify [ws_p1; ws_p2] None ws_wire (Some [ws_sig1_es384]) = Err.
+Proof. vm_compute. reflexivity. Qed.
